@@ -117,6 +117,7 @@ pub proof fn lemma_stage_round(quot: u128, rem: u128, den1: u128, N: int, F: u32
         &&& low <= 7
         &&& sh < pw2((F + 1) as nat)
         &&& pw2(F as nat) <= signif
+        &&& signif & 1u64 == signif % 2u64      // the VALUE of the parity bit: any spelling of the test works
         &&& rne_div(N, den1 * pw2((3 - adj) as nat)) == signif + (if up { 1int } else { 0int })
         &&& pw2(F as nat) * (den1 * pw2((3 - adj) as nat)) <= N < pw2((F + 1) as nat) * (den1 * pw2((3 - adj) as nat))
     }),
@@ -281,6 +282,7 @@ pub proof fn lemma_from_decimal(c: i128, f: u8, F: u32, bias: i32, BITS: u32)
         &&& 1 <= nlz <= 127 && 68 <= dlz <= 127 && nshl < 128 && dshl < 128 && den1 > 0
         &&& low <= 7
         &&& sh < pw2(64)
+        &&& signif & 1u64 == signif % 2u64
         &&& bias + exp - 1 >= 0
         &&& bits1 < pw2((BITS - 1) as nat) && bits1 < 0x8000_0000_0000_0000
         &&& bits2 == float_bits_of(c as int, f as nat, F as nat, bias as int, BITS as nat)
